@@ -1,13 +1,16 @@
 #!/bin/bash
-# trymut.sh <patch.diff> <budget_s> <prop>... : apply a seeded change to /repo, run the named checks, undo.
-P=$1; B=$2; shift 2
-cd /repo || exit 2
-git diff --quiet || { echo "/repo has uncommitted changes"; exit 2; }
-git apply "$P" || { echo "patch does not apply"; exit 2; }
-trap 'git -C /repo checkout -- . ; git -C /repo clean -fdq' EXIT
-cd /verif
+# trymut.sh <patch.diff> <budget_s> <prop>... : apply a seeded change to a scratch worktree of /repo's HEAD (never to
+# /repo itself), run the named checks against it, remove the worktree.
+P=$(readlink -f "$1"); B=$2; shift 2
+HERE=$(cd "$(dirname "$0")/.." && pwd)
+OUT=$(mktemp -d /tmp/verif-mut-XXXXXX)
+W=$OUT/wt
+git -C /repo worktree add --detach "$W" HEAD >/dev/null 2>&1 || { echo "cannot create worktree"; exit 2; }
+trap 'git -C /repo worktree remove --force "$W" >/dev/null 2>&1; rm -rf "$OUT"' EXIT
+git -C "$W" apply "$P" || { echo "patch does not apply"; exit 2; }
+cd "$HERE"
 for p in "$@"; do
-  ./check $p --budget $B > /tmp/trymut.$p.log 2>&1
+  VERIF_REPO=$W VERIF_EVIDENCE_DIR=$OUT/ev VERIF_REPLAY_DIR=/tmp/mut-replays ./check $p --budget $B > /tmp/trymut.$p.log 2>&1
   echo "== $p exit=$? $(grep -c '^VIOLATION' /tmp/trymut.$p.log) violation line(s): $(grep '^VIOLATION' /tmp/trymut.$p.log | head -2 | tr '\n' ' ')"
   grep "^  clause" /tmp/trymut.$p.log | head -2 | cut -c1-400
 done
